@@ -363,15 +363,51 @@ def run(R):
         # directory names in random order: the channel order is the ORDER GIVEN on the command line,
         # which must not coincide with the lexicographic order of the paths
         tags = rng.sample(["aa", "b1", "m_ch", "zz", "Z0", "k9"], ndirs)
+        # environment (stratified): one job in five has slice files that are SYMBOLIC LINKS whose targets
+        # are named in another order (the stack order is that of the names in the directory); one in five has
+        # directory names made of glob characters, each beside a decoy sibling that the pattern would match and
+        # that holds another stack of the same geometry (the directory NAMED on the command line is converted)
+        link_job = valid and idx % 5 == 2
+        glob_job = valid and idx % 5 == 4
+        glob_names = [("s[1]x", "s1x"), ("q?", "qA"), ("w*", "wZZ"), ("m[ab]", "ma"), ("p[!x]", "pz"),
+                      ("t[0-9]", "t7")]
         dirs = []
         for di, st in enumerate(stacks):
-            dpath = os.path.join(R.tmp, f"in{idx}", f"{tags[di]}_{di}")
+            base = f"{tags[di]}_{di}"
+            as8 = as8_sets[di] if as8_sets else ()
             scheme = rng.choice(["padded", "padded", "unpadded"])
             R.count(f"slice-names:{scheme}")
             names = slice_names(rng, st.shape[0], fmt, scheme)
-            write_slices(dpath, st, fmt, np, names, as8_sets[di] if as8_sets else ())
+            if glob_job:
+                # TIFF slices under a path containing '?' or '*' cannot be read at all on the unchanged tree:
+                # tifffile (behind skimage.io.imread) glob-expands such a path itself and recurses
+                # (RecursionError -> RuntimeError).  That is the external reader, reported separately; for TIFF
+                # stacks only bracket names are used, PNG stacks get every kind.
+                usable = [g for g in glob_names if fmt != "tif" or not set(g[0]) & set("?*")]
+                gname, decoy = usable[(idx // 5 + di) % len(usable)]
+                base = f"{gname}_{di}"
+                alt = (st ^ 1) if np.issubdtype(st.dtype, np.integer) else (st + 1).astype(st.dtype)
+                write_slices(os.path.join(R.tmp, f"in{idx}", f"{decoy}_{di}"), alt, fmt, np, names, as8)
+                R.count("env:glob-characters-in-directory-name:" + gname)
+            dpath = os.path.join(R.tmp, f"in{idx}", base)
+            if link_job and st.shape[0] >= 2:
+                nfile = st.shape[0]
+                perm = list(range(nfile))
+                rng.shuffle(perm)
+                if perm == sorted(perm):
+                    perm.reverse()
+                targets = [f"shot_{perm[k]:04d}.{fmt}" for k in range(nfile)]
+                write_slices(os.path.join(R.tmp, f"in{idx}", f"acq_{di}"), st, fmt, np, targets, as8)
+                os.makedirs(dpath, exist_ok=True)
+                for k in range(nfile):
+                    os.symlink(os.path.join("..", f"acq_{di}", targets[k]), os.path.join(dpath, names[k]))
+                R.count("env:symlinked-slices")
+            else:
+                write_slices(dpath, st, fmt, np, names, as8)
             j.setdefault("slice_names", []).append(names)
             dirs.append(dpath)
+        if link_job or glob_job:
+            j["environment"] = "symlinked slice files" if link_job else "glob characters in directory names + decoys"
         if ndirs > 1:
             R.count("dir-order:" + ("lexicographic" if dirs == sorted(dirs) else "not-lexicographic"))
         nch = sum(kchs)
@@ -495,7 +531,7 @@ def run(R):
                 impl = ["Refused"]
         case = {"code": j["case_code"], "size": size, "chunk": chunk, "layout": j["layout"],
                 "storage": j["storage"], "slices_vs_depth": j["rel"], "out_dtype": out_dt,
-                "history": j.get("history"),
+                "history": j.get("history"), "environment": j.get("environment"),
                 "subprocess": j["sub"]}
         n_groups = -(-n // max(1, chunk[AX[code[2]]])) if code in ALL_CODES else 0
         R.case(case, nontrivial=n_groups >= 2 or code != "RAS")
